@@ -20,7 +20,7 @@ def clean():
     sh('git checkout -- . ; git clean -fdq -e seeded')
 clean()
 # (1) suite with the patch
-rc, out = sh('git apply seeded/%s/patch.diff && go build ./... && go test -vet=off -count=1 ./... 2>&1 | grep -v "^ok\|no test files"' % k)
+rc, out = sh('git apply seeded/%s/patch.diff && go build $(go list ./... | grep -v /seeded) && go test -vet=off -count=1 $(go list ./... | grep -v /seeded) 2>&1 | grep -v "^ok\|no test files"' % k)
 bad = [l for l in out.splitlines() if l.startswith('FAIL') or l.startswith('--- FAIL') or 'panic:' in l]
 flaky = ('Example_after', 'TestFunc_Debounce', 'Example_expirationTime', 'TestBSTree_Concurrency')
 real = [l for l in bad if l.startswith('--- FAIL') and not any(f in l for f in flaky)]
